@@ -177,12 +177,28 @@ def cases_module_source(tr, cases, modnames):
     return "\n".join(lines)
 
 
+def basis_namespace(tracer):
+    """the menu of basis functions /verif/vlib/basis.py (names bf_*; py2coq maps them to
+    VFun ids, B64.b64_basis_call interprets them) for case expressions; the libm calls inside
+    them are traced like pymeeus' own (their `math` is a namespace of tracing wrappers)."""
+    fn = os.path.join(HERE, "..", "vlib", "basis.py")
+    if not os.path.exists(fn): return {}
+    tm = types.SimpleNamespace(**{n: getattr(math, n) for n in dir(math) if not n.startswith("_")})
+    for n in LIBM:
+        setattr(tm, n, tracer.wrap(n, getattr(math, n)))
+    ns = {"__name__": "basis"}
+    exec(compile(open(fn).read(), fn, "exec"), ns)
+    ns["math"] = tm      # the functions look `math` up at call time
+    return {k: v for k, v in ns.items() if k.startswith("bf_")}
+
+
 def run_impl(repo, src, ncases, modnames, tr):
     """returns per case (encoded result, libm table text, summary)"""
     tracer = Tracer()
     load_impl(repo, tracer, modnames)
     tree = PowRewriter().visit(ast.parse(src)); ast.fix_missing_locations(tree)
     env = {"__vpow__": tracer.vpow, "__name__": "cases"}
+    env.update(basis_namespace(tracer))
     exec(compile(tree, "<cases>", "exec"), env)
     enc = Encoder(tr)
     out = []
@@ -222,7 +238,7 @@ def write_shard(path_v, modname, idxs, results):
         for i in idxs:
             e, tbl, kind, _ = results[i]
             if e is None: continue
-            items.append("(%d, val_bits_eqb (%s.f_case_%d (B64ops %s) tt) %s)" % (i, modname, i, tbl, e))
+            items.append("(%d, val_bits_eqb (%s.f_case_%d (B64opsB %s) tt) %s)" % (i, modname, i, tbl, e))
         f.write("Definition results : list (Z * bool) :=\n  [%s].\n" % ";\n   ".join(items))
         f.write("Definition failing := map fst (filter (fun p => negb (snd p)) results).\n")
         f.write("Eval vm_compute in failing.\n")
